@@ -7,7 +7,11 @@ CFG = dict(
               "send_peer_up/down over a loopback Framed with arbitrary PeerUp/PeerDown event orders (PeerDown for peers never up, twice, "
               "after re-up): wire == exactly the PeerDowns that close an open PeerUp; the daemon's serve loop end to end (event::main, real "
               "sessions going up / down, stations subscribing at random points, PeerUp reconstructed from Global): every PeerDown read from a "
-              "station socket closes an open PeerUp of that peer; a peer whose routes arrive at the end has an open PeerUp"],
+              "station socket closes an open PeerUp of that peer; a peer whose routes arrive at the end has an open PeerUp",
+              "BMP station RIB (same e2e histories): everything a station read, folded (RouteMonitoring reach / withdraw per peer, view, "
+              "prefix, path id; PeerDown clears the peer; End-of-RIB ignored), at the final synchronisation point == what an established "
+              "peer announced, and empty for a peer whose session has ended (end observed on the sentinel station; no GR configured); "
+              "histories where the last routes of a session, its end and a new station's snapshot phase overlap"],
     assumptions=["schedules are sampled (native threads + delay injection at the hook points), not enumerated",
                  "GR stale retention is out of scope of this property's quantifier (drops are plain peer drops)",
                  "peer tracking: a PeerDown event for a peer that never was established cannot be produced by real sessions (session_loop "
@@ -20,7 +24,8 @@ CFG = dict(
                          "c18:direct-peer-down-events-for-peers-without-open-peer-up": 2000, "c18:track-suppressed": 250,
                          "c18:e2e-histories": 8, "c18:peer-down-closes-peer-up": 45, "c18:peer-down-after-reconstructed-peer-up": 18,
                          "c18:peer-up-live": 35, "c18:peer-up-reconstructed-from-global": 28, "c18:up-peer-has-open-peer-up": 40,
-                         "c18:station-streams-judged": 25}),
+                         "c18:station-streams-judged": 25, "c18:station-rib-departed-peer-empty": 90,
+                         "c18:station-rib-departed-peer-had-routes": 30, "c18:station-rib-established-peer-equal": 120}),
     quick=[e2("conc", "event::verif::c18::run", 3, 30), e2("concb", "bmp::verif::c18b::run", 3, 30), e2("peertrack", "bmp::verif::c19b::c18_peer_tracking", 1, 30)],
     thorough=[e2("conc", "event::verif::c18::run", 8, 150), dict(e2("concb", "bmp::verif::c18b::run", 8, 150), seed_offset=100),
               e2("tsan", "event::verif::c18::run", 4, 120, flavor="tsan"),
